@@ -3,7 +3,7 @@ SPECIFICATION Spec
 CONSTANTS
  Depths = {2, 3}
  WDepths = {2}
- RDepths = {1, 2}
+ RDepths = {2}
  Lmins = {1}
  Base = 4
  Bug = "none"
